@@ -299,3 +299,52 @@
 			n += 1;
 		}
 	}
+
+	// ---------------------------------------------------------------- OID constants (RFC 5280 appendix A, RFC 2985, RFC 5480, RFC 4055)
+	fn oid_eq(got: &[u64], want: &[u64]) -> bool {
+		if got.len() != want.len() { return false; }
+		let mut i = 0;
+		while i < want.len() { if got[i] != want[i] { return false; } i += 1; }
+		true
+	}
+
+	/// @ob oid.constants @props C01,C02,C03,C05,C07,C08,C13,C20 @kind forall @tier quick @bound "finite: every constant of oid.rs" @fns rcgen::oid
+	#[kani::proof]
+	#[kani::unwind(12)]
+	fn oid_constants() {
+		kani::cover!(true, "reachable");
+		// id-ce = 2.5.29 (RFC 5280 A.2)
+		assert!(oid_eq(oid::SUBJECT_KEY_IDENTIFIER, &[2, 5, 29, 14]));
+		assert!(oid_eq(oid::KEY_USAGE, &[2, 5, 29, 15]));
+		assert!(oid_eq(oid::SUBJECT_ALT_NAME, &[2, 5, 29, 17]));
+		assert!(oid_eq(oid::BASIC_CONSTRAINTS, &[2, 5, 29, 19]));
+		assert!(oid_eq(oid::CRL_NUMBER, &[2, 5, 29, 20]));
+		assert!(oid_eq(oid::CRL_REASONS, &[2, 5, 29, 21]));
+		assert!(oid_eq(oid::CRL_INVALIDITY_DATE, &[2, 5, 29, 24]));
+		assert!(oid_eq(oid::CRL_ISSUING_DISTRIBUTION_POINT, &[2, 5, 29, 28]));
+		assert!(oid_eq(oid::NAME_CONSTRAINTS, &[2, 5, 29, 30]));
+		assert!(oid_eq(oid::CRL_DISTRIBUTION_POINTS, &[2, 5, 29, 31]));
+		assert!(oid_eq(oid::AUTHORITY_KEY_IDENTIFIER, &[2, 5, 29, 35]));
+		assert!(oid_eq(oid::EXT_KEY_USAGE, &[2, 5, 29, 37]));
+		// pkcs-9-at-extensionRequest (RFC 2985), id-pe-acmeIdentifier (RFC 8737)
+		assert!(oid_eq(oid::PKCS_9_AT_EXTENSION_REQUEST, &[1, 2, 840, 113549, 1, 9, 14]));
+		assert!(oid_eq(oid::PE_ACME, &[1, 3, 6, 1, 5, 5, 7, 1, 31]));
+		// id-at (X.520 / RFC 5280 A.1)
+		assert!(oid_eq(oid::COMMON_NAME, &[2, 5, 4, 3]));
+		assert!(oid_eq(oid::COUNTRY_NAME, &[2, 5, 4, 6]));
+		assert!(oid_eq(oid::LOCALITY_NAME, &[2, 5, 4, 7]));
+		assert!(oid_eq(oid::STATE_OR_PROVINCE_NAME, &[2, 5, 4, 8]));
+		assert!(oid_eq(oid::ORG_NAME, &[2, 5, 4, 10]));
+		assert!(oid_eq(oid::ORG_UNIT_NAME, &[2, 5, 4, 11]));
+		// key algorithms (RFC 5480, RFC 4055)
+		assert!(oid_eq(oid::EC_PUBLIC_KEY, &[1, 2, 840, 10045, 2, 1]));
+		assert!(oid_eq(oid::EC_SECP_256_R1, &[1, 2, 840, 10045, 3, 1, 7]));
+		assert!(oid_eq(oid::EC_SECP_384_R1, &[1, 3, 132, 0, 34]));
+		assert!(oid_eq(oid::RSA_ENCRYPTION, &[1, 2, 840, 113549, 1, 1, 1]));
+		assert!(oid_eq(oid::RSASSA_PSS, &[1, 2, 840, 113549, 1, 1, 10]));
+		// string tags used by the name writer (X.680 table 1)
+		assert!(TAG_BMPSTRING == Tag { tag_class: yasna::TagClass::Universal, tag_number: 30 });
+		assert!(TAG_PRINTABLESTRING == Tag { tag_class: yasna::TagClass::Universal, tag_number: 19 });
+		assert!(TAG_TELETEXSTRING == Tag { tag_class: yasna::TagClass::Universal, tag_number: 20 });
+		assert!(TAG_UNIVERSALSTRING == Tag { tag_class: yasna::TagClass::Universal, tag_number: 28 });
+	}
